@@ -301,6 +301,13 @@ pub fn exec(line: &str) -> String {
             }
             p_cycle(&srcs)
         }
+        ["p_reorder", rest @ ..] => {
+            let mut srcs = Vec::new();
+            for h in rest {
+                srcs.push(text!(h));
+            }
+            p_reorder(&srcs)
+        }
         ["superset", a, h] => b(shape!(a).is_superset(&text!(h))),
         ["supersetchk", a, h] => match shape!(a).is_superset_checked(&text!(h)) {
             Ok(x) => format!("ok {}", b(x)),
@@ -917,6 +924,18 @@ fn p_readd(k: usize, idx: usize, srcs: &[String]) -> String {
         prev = Some(s);
     }
     format!("ok {} {}", sexp(&base).replace(' ', "_"), sexp(&prev.unwrap()).replace(' ', "_"))
+}
+
+/// C09 (`readd_any`): after the sources, a sequence of already-seen sources in another order (reversed, then in
+/// order, then the first once more) is fed; answer format as `p_c09`: the base shape and the shape afterwards
+fn p_reorder(srcs: &[String]) -> String {
+    let Ok(base) = JsonShape::from_sources(srcs) else { return "skip".into() };
+    let mut h = srcs.to_vec();
+    h.extend(srcs.iter().rev().cloned());
+    h.extend(srcs.iter().cloned());
+    h.push(srcs[0].clone());
+    let Ok(s) = JsonShape::from_sources(&h) else { return "violated: from_sources failed on re-fed sources".into() };
+    format!("ok {} {}", sexp(&base).replace(' ', "_"), sexp(&s).replace(' ', "_"))
 }
 
 /// size (length of the printed s-expression) of the shape of a group of documents fed 2, 4, 8 and 16 times
